@@ -59,6 +59,33 @@ def run_tasks(specs, procs=None):
     return out
 
 
+def lean_task(task_name, ob_name, lean_file, note):
+    """one obligation = a Lean 4 + Mathlib file under lemmas/ compiles (no sorry / axiom / admit); compiled on every run"""
+    import shutil
+    from pyvc.task import TaskResult
+    from pyvc.core import ObRec
+    r = TaskResult(task_name)
+    path = os.path.join(ROOT, "lemmas", lean_file)
+    src = open(path, encoding="utf-8").read()
+    t0 = time.time()
+    if shutil.which("lean") is None:
+        r.obs.append(ObRec(ob_name, "undecided", 0.0, "lean is not on PATH", kind="lemma-lean"))
+        return r
+    code = "\n".join(l for l in src.split("\n") if not l.strip().startswith("--"))
+    if any(w in code for w in ("sorry", "\naxiom ", "admit")):
+        r.obs.append(ObRec(ob_name, "undecided", 0.0, "the Lean file contains sorry / axiom / admit", kind="lemma-lean"))
+        return r
+    try:
+        p = subprocess.run(["lean", path], capture_output=True, text=True, timeout=900, cwd=os.path.dirname(path))
+        ok = p.returncode == 0 and "error" not in p.stdout and "sorry" not in p.stdout
+        detail = (p.stdout + p.stderr)[-600:]
+    except Exception as ex:  # noqa
+        ok, detail = False, repr(ex)
+    r.obs.append(ObRec(ob_name, "proved" if ok else "undecided", time.time() - t0, "" if ok else detail, kind="lemma-lean"))
+    r.assumptions.add(note)
+    return r
+
+
 def _learned_union(results):
     loops, promote = {}, set()
     for r in results:
